@@ -126,6 +126,33 @@ def send_loop_rules(chk, P, prefix):
     chk.ob("%s.R1:ok-when-drained" % prefix, "Ok(()) only when no request is left", lambda: ok_only_when_drained(P))
 
 
+OVERLAYS = ('K5',)
+
+
+def request_hook_rule(chk, P, key):
+    """The transport-specific request hook (`self.request`: for gRPC it sets the content type and puts the 5-byte length-prefixed frame around the
+    payload; for HTTP it is the identity) is applied to the content on *every* path that reaches `send_request` - in every build: the rule is
+    re-run on the build without the default features, where the `#[cfg(not(feature = "gzip"))]` arm prepares the content."""
+    def f():
+        ks = [k for k in P.bodies if re.match(r"^emit_otlp::client::http::HttpConnection::send(::\{closure#\d+\})*$", k)]
+        for k in ks:
+            b = P.bodies[k]
+            sr = [c for c in b.calls(normal_only=True) if c.callee.get("name") == "send_request"]
+            if not sr:
+                continue
+            hook = {c.bb for c in b.calls(normal_only=True) if c.callee.get("name") in ("call", "call_once", "call_mut") and c.args
+                    and (mir.o_field_path(b.origin(c.args[0]))[1] or [None])[-1] == "request"}
+            if not hook or not b.must_pass(hook, ends={sr[0].bb}):
+                return False, ("a request can reach send_request without the transport's request hook having been applied to its content: a gRPC export "
+                               "goes out without its content type and length-prefixed frame and is rejected by the collector, every time"), [], sr[0].loc
+            content = b.origin(sr[0].args[-1])
+            if not any(k_ == "callsite" and v in hook for k_, v in common.roots(content)):
+                return False, "what send_request is given (%s) is not what the request hook returned" % o_str(content), [], sr[0].loc
+            return True, "", [sr[0].loc]
+        raise mir.AnchorMissing("send_request in HttpConnection::send")
+    chk.ob(key, "the transport's request hook (gRPC framing) is applied to the content of every request, in every build", f)
+
+
 def channel_metrics_wiring(chk, P, key):
     """`Otlp::metric_source` samples one channel per signal: the `<signal>_channel_metrics` field of the OtlpMetrics it builds is read off the
     client's `otlp_<signal>` sender - the like-named one (shared with C09: an overflow of the traces channel is counted where the traces
@@ -654,4 +681,5 @@ def run(chk):
         return True, "", ["%d size updates, one on every path" % len(stores)]
     chk.ob("C12.R2:request-size-accounting", "the running request size is updated on every push (set on a new request, increased on a joined one)", request_size_accounting)
     channel_metrics_wiring(chk, P, "C12.R9:channel-metrics-wiring")
+    request_hook_rule(chk, P, "C12.R4:request-hook")
     return chk
